@@ -97,7 +97,7 @@ Definition lex_num (lx : lexeme) : Z := sign_z (lsign lx) * digits_val (lint lx 
 Definition lex_Q (lx : lexeme) : Q := lex_num lx # pow10 (length (frac_digits lx)).
 
 (* what DimensionValue stores: int(sign+v) when there is no '.', else float(sign+v) *)
-Inductive pynum := PyInt (z : Z) | PyFloat (q : Q) | PyInf.
+Inductive pynum := PyInt (z : Z) | PyFloat (q : Q) | PyInf.   (* PyInf: float() overflowed; rejected by parse_num *)
 
 (* smallest magnitude that binary64 round-to-nearest turns into inf: 2^1024 - 2^970 *)
 Definition ovf_threshold : Q := inject_Z (2 ^ 1024 - 2 ^ 970).
@@ -179,7 +179,7 @@ Definition pyq (v : pynum) : Q :=
 (* do_css_Value for DIMENSION / NUMBER / PERCENTAGE (serialize.py:1060-1090); [surgery] is strip_lead0 *)
 Definition ser_with (surgery : str -> str) (olz : bool) (sg : sign) (v : pynum) (unit : str) : outcome :=
   match v with
-  | PyInf => Crash (s "OverflowError")                      (* int(inf) *)
+  | PyInf => Crash (s "OverflowError")                      (* int(inf); unreachable through parse_num *)
   | _ =>
     let q := pyq v in
     if Qeq_bool q 0 then Text (48%N :: (if mem_s unit zero_units then [] else unit))
@@ -207,9 +207,14 @@ Section WithDbl.
     | Some _ => if Qle_bool ovf_threshold (Qabs (lex_Q lx)) then PyInf else PyFloat (dbl (lex_Q lx))
     end.
 
-  (* parse a normalised token value: (lexeme, stored value) *)
+  (* parse a normalised token value: (lexeme, stored value).  value.py:541-553 (after fix 5180c6a): a value that
+     float() turns into +-inf is 'Number out of range': the DimensionValue is not well-formed, nothing is stored.
+     (int()'s digit limit, sys.get_int_max_str_digits() = 4300 digits, is not modelled.)                       *)
   Definition parse_num (t : str) : option (lexeme * pynum) :=
-    match split_num t with Some lx => Some (lx, to_value lx) | None => None end.
+    match split_num t with
+    | Some lx => match to_value lx with PyInf => None | v => Some (lx, v) end
+    | None => None
+    end.
 
   (* cssText of a freshly parsed DimensionValue *)
   Definition ser_lex (olz : bool) (lx : lexeme) : outcome :=
